@@ -32,7 +32,7 @@ PROPERTY = 'C09'
 LEVEL = 'exploration'
 DESIGN_REF = 'DESIGN.md §4 C09'
 TECHNIQUE = ('exhaustive enumeration: (a) every syndrome x the full coset of 2^n candidate corrections per sector '
-             'on small codes, for 12 noise direction/deformation/axis combinations x 3 rates, decoder weight '
+             'on small codes, for 19 noise direction/deformation/axis combinations x every total rate of {0.05..0.95} whose flip marginals are < 1/2, decoder weight '
              'compared with the coset minimum under independently recomputed log-likelihood weights; (b) every '
              'Pauli error of weight <= floor((d-1)/2) on every lattice size up to the bound, success decided by '
              'is_success and by an independent GF(2) row-space test')
@@ -64,7 +64,10 @@ ASSUMPTIONS = [
     'GF(2) reference algebra mc/gf2.py',
 ]
 
-RATES = [0.05, 0.2, 0.4]
+# total error rates; for each noise exactly those rates are used at which every per-qubit flip marginal
+# (recomputed by _ref_marginals, not the total rate) is below 1/2 -- the property's domain.  Rates above 1/2
+# belong to it whenever the direction splits the rate over X and Z (r_y = 0 or small).
+RATES = [0.05, 0.2, 0.4, 0.6, 0.8, 0.95]
 T = 1.0 / 3.0
 # label, (r_x, r_y, r_z), deformation name, axis (None = the class default, which is 'y')
 NOISES = [
@@ -80,7 +83,26 @@ NOISES = [
     ['pureX+XZZXy', [1.0, 0.0, 0.0], 'XZZX', 'y'],
     ['mixed+XY', [0.7, 0.2, 0.1], 'XY', None],
     ['mixed+XZZXx', [0.2, 0.5, 0.3], 'XZZX', 'x'],
+    # directions whose flip marginals stay below 1/2 for total rates above 1/2
+    ['XZ46', [0.4, 0.0, 0.6], None, None],
+    ['XZ46+XZZXx', [0.4, 0.0, 0.6], 'XZZX', 'x'],
+    ['XZ64+XZZX', [0.6, 0.0, 0.4], 'XZZX', None],
+    ['XZ5248+XZZXy', [0.52, 0.0, 0.48], 'XZZX', 'y'],
+    ['XZ4852', [0.48, 0.0, 0.52], None, None],
+    ['smallY+XZZXx', [0.45, 0.05, 0.5], 'XZZX', 'x'],
+    ['Ybias+XY', [0.3, 0.5, 0.2], 'XY', None],
 ]
+
+
+def _rates_for(noise):
+    """The rates of RATES at which all flip marginals of this noise are < 1/2 (one qubit of each axis)."""
+    label, direction, deformation, axis = noise
+    out = []
+    for p in RATES:
+        qx, qz = _ref_marginals('Toric2DCode', [(1, 0), (0, 1)], direction, deformation, axis, p)
+        if max(qx + qz) < 0.5:
+            out.append(p)
+    return out
 OPT_CODES = {
     'quick': [['Toric2DCode', [2, 2]], ['Planar2DCode', [2, 2]], ['Planar2DCode', [3, 2]],
               ['RotatedPlanar2DCode', [2, 4]], ['RotatedPlanar2DCode', [3, 3]], ['Toric2DCode', [2, 3]],
@@ -153,7 +175,7 @@ def cases(tier, seed):
             (out if t < 2 else heavy).extend(_lw_cases('tc', 'UnionFindDecoder', 'Toric2DCode', s, t))
     for cls, size in OPT_CODES[tier]:
         for noise in NOISES:
-            out.append({'part': 'opt', 'cls': cls, 'size': size, 'noise': noise, 'rates': RATES})
+            out.append({'part': 'opt', 'cls': cls, 'size': size, 'noise': noise, 'rates': _rates_for(noise)})
     sm = []
     lmax = b['sm_toric3d_max_n'] // 27
     for s in itertools.product(range(3, lmax + 1), repeat=3):
